@@ -293,7 +293,10 @@ type reqState struct {
 	started  bool
 	done     bool // terminal status observed
 	gone     bool // cancelled by the requestor while paused (no status on the wire)
-	overlap  bool // another request of the same dedup scope was in progress during its life
+	overlap  bool // another request of the same dedup scope was in progress during its life (coverage only)
+	held     []int  // blocks this request keeps "in use" in its dedup scope (ignore list + present links so far)
+	attachErr string // first block-attachment mismatch seen on the wire (reported when the request is judged)
+	released bool
 	judged   bool
 }
 
@@ -319,6 +322,10 @@ type world struct {
 	fake   *fakeHandler
 	net    *fakeNet
 	rec    *recorder
+
+	// oracle's own record of the dedup scopes: busy[scope][block] = number of traversals-with-block
+	// (incl. do-not-send-cids entries) by requests still in progress in that scope
+	busy map[string]map[int]int
 
 	mu   sync.Mutex
 	reqs map[int]*reqState
@@ -770,12 +777,79 @@ func fmtItem(it item) string {
 	return s
 }
 
+func accepted(s reqSpec) bool {
+	return (s.hook == "ok" || s.hook == "pause") && s.keyMode != extBad && s.ignMode != extBad && s.skipMode != extBad
+}
+
+func scopeOf(s reqSpec) string {
+	if s.keyMode == extOK {
+		return fmt.Sprintf("k%d", s.key)
+	}
+	return ""
+}
+
+func (w *world) hold(rs *reqState, block int) {
+	sc := scopeOf(rs.spec)
+	if w.busy == nil {
+		w.busy = map[string]map[int]int{}
+	}
+	if w.busy[sc] == nil {
+		w.busy[sc] = map[int]int{}
+	}
+	w.busy[sc][block]++
+	rs.held = append(rs.held, block)
+}
+
+func (w *world) release(rs *reqState) {
+	if rs.released {
+		return
+	}
+	rs.released = true
+	sc := scopeOf(rs.spec)
+	for _, b := range rs.held {
+		w.busy[sc][b]--
+	}
+	rs.held = nil
+}
+
+// expectAttach: the send rule of the property, evaluated at the moment the link goes out: the block
+// accompanies the link iff it is present, the link's number exceeds do-not-send-first-blocks, and no
+// request in progress in the dedup scope — this one included, with its do-not-send-cids list and the
+// blocks of its first N links — has the block in use.
+func (w *world) expectAttach(rs *reqState, it item) {
+	if !accepted(rs.spec) {
+		return
+	}
+	s := rs.spec
+	idx := int64(len(rs.items) + 1)
+	skip := int64(0)
+	if s.skipMode == extOK {
+		skip = s.skip
+	}
+	inUse := w.busy[scopeOf(s)][it.block]
+	want := it.present && idx > skip && inUse == 0
+	if it.present && idx > skip && inUse > 0 {
+		w.out.Cov("oracle:already-in-use")
+	}
+	if want != it.plus && rs.attachErr == "" {
+		if it.plus {
+			rs.attachErr = fmt.Sprintf("req %d: block %d sent with link #%d although excluded or already sent (present=%v skip=%d in-use-count-in-scope=%d)", s.id, it.block, idx, it.present, skip, inUse)
+		} else {
+			rs.attachErr = fmt.Sprintf("req %d: present link #%d (block %d) not excluded (skip=%d) and not in use in its dedup scope, but no block accompanies it", s.id, idx, it.block, skip)
+		}
+	}
+	if it.present {
+		w.hold(rs, it.block)
+	}
+}
+
 // report prints the three output lines of a req/resume op and folds the phase into the request.
 func (w *world) report(rs *reqState, msgs []wireMsg) {
 	var md, st, det []string
 	for _, m := range msgs {
 		for _, it := range m.items {
 			md = append(md, fmtItem(it))
+			w.expectAttach(rs, it)
 			rs.items = append(rs.items, it)
 		}
 		for _, b := range m.stray {
@@ -831,6 +905,9 @@ func (w *world) report(rs *reqState, msgs []wireMsg) {
 	}
 	if len(st) == 0 {
 		st = []string{"-"}
+	}
+	if rs.done || rs.gone {
+		w.release(rs)
 	}
 	w.out.Line("md %s", strings.Join(md, " "))
 	w.out.Line("st %s", strings.Join(st, " "))
@@ -895,6 +972,11 @@ func (w *world) doReq(t []string) {
 	w.mu.Unlock()
 	w.markOverlap(rs)
 	rs.started = true
+	if accepted(spec) && spec.ignMode == extOK {
+		for _, b := range spec.ign {
+			w.hold(rs, b) // do-not-send-cids: in use for the whole life of the request
+		}
+	}
 	w.cov(spec)
 	from := w.rec.len()
 	// the request travels through the real wire codec as well
@@ -1001,6 +1083,7 @@ func (w *world) doRcancel(t []string) {
 	}
 	rs.gone = true
 	w.report(rs, w.view(rs, w.rec.since(from)))
+	w.release(rs)
 }
 
 func (w *world) cov(s reqSpec) {
@@ -1086,52 +1169,25 @@ func (w *world) judge(rs *reqState) {
 		w.out.Fail("block-before-metadata", "req %d: %d block(s) travelled in a message without their metadata entry", s.id, rs.stray)
 		return
 	}
-	ign := map[int]bool{}
-	if s.ignMode == extOK {
-		for _, i := range s.ign {
-			ign[i] = true
-		}
+	if rs.attachErr != "" {
+		w.out.Fail("block-attach", "%s", rs.attachErr)
+		return
 	}
-	skip := int64(0)
-	if s.skipMode == extOK {
-		skip = s.skip
+	if rs.overlap {
+		w.out.Cov("oracle:judged-with-concurrent-request-in-scope")
 	}
-	sent := map[int]bool{}      // blocks already sent by this request
-	inWindow := map[int]bool{} // blocks of the first `skip` links (the requestor declared it has them)
-	knownReported := false
-	for i, it := range got {
-		idx := int64(i + 1)
-		excluded := !it.present || ign[it.block] || idx <= skip
-		if it.plus && excluded {
-			w.out.Fail("block-attach", "req %d: block %d sent with link #%d although excluded (present=%v ignored=%v skip=%d)", s.id, it.block, idx, it.present, ign[it.block], skip)
-			return
-		}
-		if it.plus && sent[it.block] {
-			w.out.Fail("block-attach", "req %d: block %d sent twice (again with link #%d)", s.id, it.block, idx)
-			return
-		}
-		if !rs.overlap && !excluded && !sent[it.block] && !it.plus {
-			if inWindow[it.block] {
-				// KNOWN FINDING (known_findings.json, class skip-window-revisit): the link lies after the
-				// do-not-send-first-blocks window and its block has not been sent, so the property sentence
-				// wants the block here; the code withholds it because an earlier link of the same block fell
-				// inside the window.  Exactly this input class gets this class; the check goes on.
-				if !knownReported {
-					w.out.Fail("skip-window-revisit", "req %d: present link #%d (block %d, skip=%d) is past the do-not-send-first-blocks window, not excluded and not yet sent, but no block accompanies it (the block's earlier link was inside the window)", s.id, idx, it.block, skip)
-					knownReported = true
+	// coverage: a block of the first N links (the requestor has it) linked again after the window
+	if s.skipMode == extOK && s.skip > 0 {
+		win := map[int]bool{}
+		for i, it := range got {
+			if int64(i+1) <= s.skip {
+				if it.present {
+					win[it.block] = true
 				}
-				w.out.Cov("oracle:skip-window-revisit")
-				sent[it.block] = true // the sentence would have sent it here; later links of it are duplicates
-			} else {
-				w.out.Fail("block-attach", "req %d: present link #%d (block %d) not excluded and not yet sent, but no block accompanies it", s.id, idx, it.block)
-				return
+			} else if it.present && win[it.block] {
+				w.out.Cov("oracle:skip-window-relink")
+				break
 			}
-		}
-		if it.plus {
-			sent[it.block] = true
-		}
-		if it.present && idx <= skip {
-			inWindow[it.block] = true
 		}
 	}
 	// 4. final status
